@@ -66,6 +66,11 @@ def history(ops, answers, sides, conc=False):
             e.dropped = a == "dropped"
             if e.op == "csub" and len(e.args) == 3:
                 e.args = e.args + ["-"]
+        if e.op == "acklast" and e.args:
+            # acknowledges exactly what the client's last Pull returned; the answer names the ids
+            e.op = "ack"
+            e.args = [e.args[0], (a[3:].strip() or "-") if a.startswith("ok") else "-"]
+            a = "ok" if a.startswith("ok") else a
         e.ans = a
         sd = sides[i] if i < len(sides) else ""
         e.b = e.e = i
@@ -231,7 +236,7 @@ def _names(ids, ack):
     return any(ackid_ok(i) and int(i[1:] if i[:1] == b"+" else i) == ack for i in ids)
 
 
-def _lease_end_lower(w, d, ack, upto_ev):
+def _lease_end_lower(w, d, ack, upto_ev, skip=None):
     """Earliest instant at which the lease of delivery d / ack id `ack` may have ended, given the
     successful modifications issued after the delivery could have happened and before event
     `upto_ev`. None = possibly ended by a nack (or an ack) at any time."""
@@ -249,6 +254,8 @@ def _lease_end_lower(w, d, ack, upto_ev):
                     return None           # nacked, or the lease may have been over when modified
                 end = min(end, m["t0"] + min(s_, 600) * US) if m["b"] <= d["e"] else m["t0"] + min(s_, 600) * US
     for x in w.acks:
+        if x is skip:
+            continue
         if x["sub_inc"] == d["sub_inc"] and d["b"] < x["e"] and x["b"] < upto_ev and _names(x["ids"], ack):
             return None
     return end
@@ -300,7 +307,9 @@ def c02(w):
             d, m = hit
             if d["e"] >= x["b"]:
                 continue                      # not certainly delivered before the ack was issued
-            end = _lease_end_lower(w, d, a, x["e"])
+            # every modification / other ack that may have taken effect before this ack returned counts; the ack
+            # itself is not "something that ended the lease earlier"
+            end = _lease_end_lower(w, d, a, x["e"], skip=x)
             if end is None or x["t1"] >= end:
                 continue                      # the lease may already have ended: no claim
             for d2 in w.delivs:
